@@ -4,6 +4,6 @@ CONSTANTS
   NetName = "robustirc.net"
   MaxN = 25
   Families = {"reg", "member", "mode", "talk", "oper", "services", "entry", "addr", "time"}
-  Prologues = {1, 2, 3, 4, 5, 6}
+  Prologues = {1, 2, 3, 4, 5, 6, 7}
 INVARIANT NoFailure
 CHECK_DEADLOCK FALSE
